@@ -8,6 +8,7 @@ from hypothesis import strategies as st
 
 from .. import gens, refs
 from ..runner import Sub
+from . import probes
 from .common import L, Checker, arr
 
 PROPERTY_ID = "C05"
@@ -16,6 +17,7 @@ RULE = ("rotations generated from angle triples (full range, exact singular valu
         "SO(3) and SE(3) inputs, base functions and SO3/SE3/UnitQuaternion methods, planar x-y-theta. Oracle: constructor = "
         "documented product of reference axis rotations (1e-9); rebuild(extract(R)) = R (1e-6); angle ranges; deg = rad*180/pi. "
         "Non-trivial: within 1e-3 of a singular configuration, or non-default order / flip / deg.")
+RULE = RULE + probes.RULE_TEXT + (probes.AUG_TEXT if PROPERTY_ID in probes.AUG_PROPS else "")
 ASSUMPTIONS = ["extraction need not return the generating angles (many pre-images): only the rebuilt matrix and ranges are judged",
                "reference rotations from pbt/refs.py; deg inputs are a*180/pi so that the library's conversion reproduces a to 1 ulp"]
 
@@ -68,6 +70,8 @@ def rpy_ref(r, p, y, order):
 
 
 def check_case(case):
+    if case.get("kind") in ("hist", "aug"):
+        return probes.run(case, PROPERTY_ID)
     return {"rpy": _rpy, "eul": _eul, "angvec": _angvec, "xyt": _xyt}[case["kind"]](case)
 
 
@@ -343,6 +347,8 @@ def _xyt(case):
 
 
 def classify(case):
+    if case.get("kind") in ("hist", "aug"):
+        return probes.classify(case)
     k = case["kind"]
     lab = {"kind:" + k: True, "deg": case["unit"] == "deg"}
     if k == "rpy":
@@ -373,4 +379,5 @@ def subchecks(tier):
         Sub("eul", strategy=s_eul(), n=(500, 15000), shards=(4, 16)),
         Sub("angvec", strategy=s_angvec(), n=(500, 15000), shards=(4, 16)),
         Sub("xyt", strategy=s_xyt(), n=(500, 10000), shards=(3, 8)),
+        *probes.subs(PROPERTY_ID),
     ]
